@@ -201,13 +201,15 @@ def run(tier, seed, escalate=False):
         dist["sample_path_forms"] = n_s
         # ---------------- (e) multi-path load
         pbase = os.path.join(base, "topspin")
-        plist = [os.path.join(pbase, x) for x in ("1", "3", "1", "3", "1") if os.path.exists(os.path.join(pbase, x))]
+        # same shape, different data, NOT in lexicographic order of the paths
+        plist = [os.path.join(pbase, x) for x in ("8", "20", "5", "23", "6") if os.path.exists(os.path.join(pbase, x))]
         for n in range(1, len(plist) + 1):
             with warnings.catch_warnings(), contextlib.redirect_stdout(io.StringIO()):
                 warnings.simplefilter("ignore")
                 try:
                     parts = [dnp.load(p) for p in plist[:n]]
-                    if len({x.shape for x in parts}) != 1:
+                    if len({x.shape for x in parts}) != 1 or any(np.array_equal(parts[0].values, x.values) for x in parts[1:]):
+                        fails.append({"key": "C16:multi-path-samples-unsuitable", "clause": "C16:multi-path-samples-unsuitable", "ops": [{"n": n}]})
                         continue
                     coord = np.arange(n) * 0.5 + 1.0
                     m = dnp.load(plist[:n], dim="tx", coord=coord)
